@@ -476,3 +476,24 @@ N("C01", "find loop written with != -1", KW, "    while start >= 0:", "    while
 N("C18", "module name through a temporary, filters merged", REG, "        if include and submod_info.name not in include:\n            continue\n        if exclude and submod_info.name in exclude:\n            continue\n        submodule = importlib.import_module(\".\" + submod_info.name, package=multidecoder.decoders.__name__)\n", "        name = submod_info.name\n        if (include and name not in include) or (exclude and name in exclude):\n            continue\n        submodule = importlib.import_module(\".\" + name, package=multidecoder.decoders.__name__)\n")
 N("C14", "xml references through a temporary and renamed", XMLF, '    return bytes(\n        int(x[1:], base=16) if x.startswith((b"x", b"X")) else int(x) for x in data.replace(b"&#", b"").split(b";")[:-1]\n    )\n', '    refs = data.replace(b"&#", b"").split(b";")[:-1]\n    return bytes(int(ref[1:], base=16) if ref.startswith((b"x", b"X")) else int(ref) for ref in refs)\n')
 N("C01", "xml references through a temporary and renamed", XMLF, '    return bytes(\n        int(x[1:], base=16) if x.startswith((b"x", b"X")) else int(x) for x in data.replace(b"&#", b"").split(b";")[:-1]\n    )\n', '    refs = data.replace(b"&#", b"").split(b";")[:-1]\n    return bytes(int(ref[1:], base=16) if ref.startswith((b"x", b"X")) else int(ref) for ref in refs)\n')
+B("C20", "CLI strips a UTF-8 BOM from file input (seed s56)", MAIN, "            return\n    else:\n        data = sys.stdin.buffer.read()", "            return\n        if data.startswith(b\"\\xef\\xbb\\xbf\"):\n            data = data[3:]\n    else:\n        data = sys.stdin.buffer.read()", "R3-cli")
+
+# ------------------------------------------------------------------ rules added after sub-agent rounds 4-6
+XT = "src/multidecoder/xortool.py"
+B("C01", "xortool key enumeration no longer bounded (D29)", XT, "    if key_count > MAX_GUESSED_KEYS:\n        key_possible_bytes = [possible_bytes[:1] for possible_bytes in key_possible_bytes]\n", "", "R4-enumeration-bound")
+N("C01", "enumeration bound leaves instead of truncating", XT, "    if key_count > MAX_GUESSED_KEYS:\n        key_possible_bytes = [possible_bytes[:1] for possible_bytes in key_possible_bytes]\n", "    if key_count > MAX_GUESSED_KEYS:\n        return []\n")
+B("C09", "keyword files sorted case-insensitively (seed s45)", REG, "        for file_name in sorted(files):", "        for file_name in sorted(files, key=str.casefold):", "R1-order-taint")
+B("C12", "user name cut at the last colon (seed s48)", NET, 'username, password = userinfo.split(b":", 1) if b":" in userinfo else (userinfo, b"")', 'username, password = userinfo.rsplit(b":", 1) if b":" in userinfo else (userinfo, b"")', "R2-layout")
+N("C12", "userinfo through partition", NET, 'username, password = userinfo.split(b":", 1) if b":" in userinfo else (userinfo, b"")', 'username, _, password = userinfo.partition(b":")')
+B("C12", "userinfo through rpartition", NET, 'username, password = userinfo.split(b":", 1) if b":" in userinfo else (userinfo, b"")', 'username, _, password = userinfo.rpartition(b":")', "R2-layout")
+N("C16", "caret label as if/return", SH, '    return stripped, "unescape.shell.carets" if stripped != cmd else ""', '    if stripped == cmd:\n        return stripped, ""\n    return stripped, "unescape.shell.carets"')
+B("C16", "caret label as if/return, inverted", SH, '    return stripped, "unescape.shell.carets" if stripped != cmd else ""', '    if stripped != cmd:\n        return stripped, ""\n    return stripped, "unescape.shell.carets"', "R2-label")
+N("C10", "percent label arms swapped", NET, 'return normalized, "escape.percent" if len(normalized) < len(uri) else ""', 'return normalized, "" if len(normalized) >= len(uri) else "escape.percent"')
+B("C10", "percent label arms swapped, off by one", NET, 'return normalized, "escape.percent" if len(normalized) < len(uri) else ""', 'return normalized, "" if len(normalized) > len(uri) else "escape.percent"', "R4-percent")
+N("C17", "is_mixed_case as any()", KW, "    for v, d in zip(raw, value):\n        # Check for case discrepancy between byte characters\n        if (chr(v).isupper() and not chr(d).isupper()) or (chr(v).islower() and not chr(d).islower()):\n            return True\n\n    return False\n", "    return any(\n        (chr(v).isupper() and not chr(d).isupper()) or (chr(v).islower() and not chr(d).islower())\n        for v, d in zip(raw, value)\n    )\n")
+N("C18", "blank lines dropped by a set comprehension", REG, '                keywords = set(keyword_file.read().splitlines())\n                keywords.discard(b"")\n', "                keywords = {line for line in keyword_file.read().splitlines() if line}\n")
+N("C18", "default directory as an if statement", REG, '    directory = directory or os.path.join(next(iter(multidecoder.__path__)), "keywords")\n', '    if not directory:\n        directory = os.path.join(next(iter(multidecoder.__path__)), "keywords")\n')
+N("C03", "constructor re-parents through self.children", NODE, "        if children:\n            self.children = children\n            for child in children:\n                child.parent = self\n        else:\n            self.children = []\n", "        self.children = children if children else []\n        for child in self.children:\n            child.parent = self\n")
+N("C20", "encoder arms swapped", JS, "        if isinstance(node, Node):\n            return node_to_dict(node)\n        return json.JSONEncoder.default(self, node)\n", "        if not isinstance(node, Node):\n            return json.JSONEncoder.default(self, node)\n        return node_to_dict(node)\n")
+N("C14", "chr hit appended in the else clause", CHRF, "        except (ValueError, UnicodeEncodeError):\n            continue\n        out.append(Node(\"string\", character, \"function.chr\", *match.span()))\n", "        except (ValueError, UnicodeEncodeError):\n            pass\n        else:\n            out.append(Node(\"string\", character, \"function.chr\", *match.span()))\n")
+N("C01", "closing delimiter looked up in a constant table", SH, "                if bound == b\"'(\":\n                    # In a cmd FOR loop, find the end paren\n                    end = data.find(b\"')\", start)\n                elif bound == b'\"':\n                    # In a double quoted string, find the end quote\n                    end = data.find(b'\"', start)\n                else:\n                    # In a single quoted string, find the end quote\n                    end = data.find(b\"'\", start)\n", "                end = data.find({b\"'(\": b\"')\", b'\"': b'\"', b\"'\": b\"'\"}[bound], start)\n")
